@@ -55,7 +55,8 @@ let show_outcome (f : 'a -> string) (o : 'a outcome) : string =
   | Panic -> "panic"
   | OutOfFuel -> "fuel"
 
-(* the harness caps a single allocation request at 512 MiB; a String is 24 bytes *)
+(* the harness caps a single allocation request at 512 MiB; a String is 24 bytes (since the
+   hardening parse_sst reserves at most a third of the bytes present, so this needs > 64 MiB of input) *)
 let alloc_cap_elems = n_of_string "22369621"
 let run_parse_sst (st : rstate) : string =
   if BinNat.N.ltb alloc_cap_elems (sst_capacity_request st) then "alloc"
@@ -70,7 +71,7 @@ let sstenc (args : string list) : string =
     let strs = parse_strings strs in
     let lay = { lay_total = n_of_string total; lay_strs = parse_layouts lays } in
     let legal = legal_layout strs lay in
-    let known = match known_C12 strs lay with Some _ -> "CutInsidePair" | None -> "-" in
+    let known = "-" in   (* no known class is left (CutInsidePair was repaired) *)
     let spec = show_strings (List.map utf16_decode strs) in
     let st = sst_encode strs lay in
     let model = run_parse_sst st in
@@ -201,7 +202,7 @@ let wbenc (args : string list) : string =
     let lay = { lay_total = n_of_string total; lay_strs = parse_layouts lays } in
     let shs = List.map parse_sheet (String.split_on_char ';' sheets) in
     let legal = legal_workbook strs lay shs in
-    let known = match known_C12 strs lay with Some _ -> "CutInsidePair" | None -> "-" in
+    let known = "-" in
     let stream = workbook_stream strs lay shs in
     let model = match wb_strings stream with
       | Ok l -> show_sheets l
